@@ -279,10 +279,10 @@ Proof.
   inversion F as [|? ? P _]. exact P.
 Qed.
 
-Lemma log_on_leader_changed : forall s, log (nd (on_leader_changed s)) = log (nd s) /\ sr (nd (on_leader_changed s)) = sr (nd s).
+Lemma nd_on_leader_changed : forall s, nd (on_leader_changed s) = (nd s) <| wait_reply := [] |>.
 Proof.
   intros. unfold on_leader_changed. destruct (olc_fold 0 (wait_reply (nd s)) s) as [H _]. cbn zeta in H.
-  cbn. now rewrite H.
+  unfold upd. cbn [nd]. change (nd (?x <| nd := ?y |>)) with y. cbn. now rewrite H.
 Qed.
 
 Theorem log_wf_on_message : forall e from m n,
@@ -301,8 +301,7 @@ Proof.
     set (s2 := if opt_eqb (leader (nd s1)) (Some from) then s1 else on_leader_changed s1).
     assert (U2 : log (nd s2) = log n /\ sr (nd s2) = sr n /\ recv_t (nd s2) = recv_t n).
     { unfold s2. destruct (opt_eqb (leader (nd s1)) (Some from)); auto.
-      destruct (log_on_leader_changed s1) as [A B]. rewrite A, B. repeat split; auto.
-      unfold on_leader_changed. destruct (olc_fold 0 (wait_reply (nd s1)) s1) as [H _]. cbn zeta in H. cbn. now rewrite H. }
+      rewrite nd_on_leader_changed. auto. }
     set (s3 := upd (fun n => n <| leader := Some from |>) s2).
     set (s4 := if term (nd s3) <? t then upd (fun n => n <| term := t |> <| voted := None |>) s3 else s3).
     set (s5 := set_role FOLLOWER s4).
@@ -318,7 +317,6 @@ Proof.
       + destruct (view_inv _ _ (view_send_next_idx from None false false (upd (fun n0 => n0 <| recv_t := [(en, off, len)] |>) s6)))
           as (_ & _ & _ & _ & _ & _ & _ & _ & _ & L & _). rewrite L. cbn. now rewrite L6.
       + destruct (recv_t (nd s6)) eqn:RT; [cbn; now rewrite L6|].
-        rewrite <- RT. clear RT.
         destruct (lab =? 2).
         * destruct (view_inv _ _ (view_send_next_idx from None false false (upd (fun n0 => n0 <| recv_t := recv_t n0 ++ [(en, off, len)] |>) s6)))
             as (_ & _ & _ & _ & _ & _ & _ & _ & _ & L & _). rewrite L. cbn. now rewrite L6.
@@ -347,7 +345,7 @@ Proof.
         cbn in SS. injection SS as SS. eapply assemble_snap_wf; [|exact SS].
         apply Forall_app. split.
         * destruct first; [injection INC as <-; constructor|]. now apply IW.
-        * constructor; auto. destruct b as [s0|]; cbn; auto.
+        * constructor; auto; destruct b as [s0|]; cbn; auto.
       + destruct (view_inv _ _ (view_ae_commit c None s7)) as (_ & _ & _ & _ & _ & _ & _ & _ & _ & X & _).
         now rewrite X, L7. }
   unfold on_message.
@@ -379,4 +377,144 @@ Proof.
         match goal with |- context [aget from ?l] => destruct (aget from l) as [m0|] end; auto;
         destruct (m0 <? next - 1); auto. }
     destruct (ok s2); cbn; rewrite C2; exact WF.
+Qed.
+
+(* ---- ticks ---- *)
+Definition wfk (f : S -> S) : Prop := forall s, log_wf (log (nd s)) -> log_wf (log (nd (f s))).
+
+Lemma wfk_view : forall f, quiet f -> wfk f.
+Proof.
+  intros f H s W. now destruct (view_inv _ _ (H s)) as (_ & _ & _ & _ & _ & _ & _ & _ & _ & -> & _).
+Qed.
+
+Lemma wfk_andthen : forall f g, wfk f -> wfk g -> wfk (f ;; g).
+Proof. intros f g Hf Hg s W. unfold andthen. destruct (ok (f s)); auto. Qed.
+
+Lemma wfk_tick_election : forall e, wfk (tick_election e).
+Proof.
+  intros e s W. unfold tick_election.
+  destruct (self (nd s)) as [me|]; auto.
+  destruct (((role (nd s) =? FOLLOWER) || (role (nd s) =? CANDIDATE)) &&
+            (deadline (nd s) <? tnow s)%Z && connected_to_anyone (nd s)); auto.
+  set (s1 := upd (fun n => n <| deadline := (tnow s + gen_timeout e)%Z |> <| leader := None |>) s).
+  set (s2 := set_role CANDIDATE s1).
+  set (s3 := upd (fun n => n <| term := term n + 1 |> <| voted := Some me |> <| votes := 1 |>) s2).
+  assert (V3 : view_of s3 = view_of s).
+  { unfold s3, s2, s1. rewrite view_upd by reflexivity. rewrite view_set_role. now rewrite view_upd by reflexivity. }
+  set (s4 := fold_left (fun s x => send x (RequestVote (term (nd s3)) (last_idx (log (nd s3))) (last_term (log (nd s3)))) s)
+                       (others (nd s3)) s3).
+  assert (V4 : view_of s4 = view_of s).
+  { unfold s4. rewrite view_fold; auto. intros. now apply view_send. }
+  apply view_inv in V4 as (_ & _ & _ & _ & _ & _ & _ & _ & _ & L4 & _).
+  assert (W5 : log_wf (log (nd (on_leader_changed s4)))).
+  { rewrite nd_on_leader_changed. change (log (nd s4 <| wait_reply := [] |>)) with (log (nd s4)). now rewrite L4. }
+  destruct (majority (votes (nd (on_leader_changed s4))) (nd (on_leader_changed s4))); auto.
+  now apply log_wf_become_leader.
+Qed.
+
+Lemma wfk_check_loop : forall fuel e start, wfk (check_loop fuel e start).
+Proof.
+  induction fuel as [|f IH]; intros e start s W; cbn [check_loop]; auto.
+  destruct (tnow s - start <? period (cf e))%Z; auto.
+  assert (G : log_wf (log (nd (match queue (nd s) with
+                  | [] => s
+                  | (c, cbk) :: rest =>
+                    let s0 := upd (fun n => n <| queue := rest |>) s in
+                    let s1 := check_one e c cbk s0 in if ok s1 then check_loop f e start s1 else s1 end)))).
+  { destruct (queue (nd s)) as [|[c cbk] rest]; auto. cbn zeta.
+    set (s0 := upd (fun n => n <| queue := rest |>) s).
+    assert (W1 : log_wf (log (nd (check_one e c cbk s0)))) by (apply log_wf_check_one; exact W).
+    destruct (ok (check_one e c cbk s0)); auto. apply IH; auto. }
+  destruct (leader (nd s)); auto. destruct (wait_leader (cf e)); auto.
+Qed.
+
+Definition tick_mid (e : env) (need : bool) : S -> S := tick_send e need ;; tick_ready ;; check_commands e.
+
+Definition tick_body (e : env) : S -> S :=
+  tick_pre e ;; (fun s => let (s1, need) := apply_entries e s in if ok s1 then tick_mid e need s1 else s1).
+
+Lemma andthen_apply : forall f g s, (f ;; g) s = if ok (f s) then g (f s) else f s.
+Proof. reflexivity. Qed.
+
+Lemma on_tick_body : forall e n, on_tick e n = (tick_body e ;; try_compact e) (start_S e n).
+Proof.
+  intros. rewrite on_tick_split. cbn zeta. unfold tick_body, tick_post, tick_mid.
+  rewrite !andthen_apply.
+  set (s0 := tick_pre e (start_S e n)).
+  destruct (ok s0) eqn:O0; [|now rewrite O0].
+  destruct (apply_entries e s0) as [s1 need]. cbn [fst snd].
+  destruct (ok s1) eqn:O1; [|now rewrite O1].
+  rewrite !andthen_apply.
+  destruct (ok (tick_send e need s1)) eqn:O2; [|now rewrite O2].
+  destruct (ok (tick_ready (tick_send e need s1))) eqn:O3; [|now rewrite O3].
+  destruct (ok (check_commands e (tick_ready (tick_send e need s1)))) eqn:O4; now rewrite ?O4.
+Qed.
+
+(* a tick keeps the log well-formed up to the compaction phase; compaction keeps it when the cut
+   index of a finished serialization is still in the log *)
+Theorem log_wf_on_tick : forall e n,
+  log_wf (log n) ->
+  (forall sn, stored (sr n) = Some (Good sn) -> snap_wf sn) ->
+  let sb := tick_body e (start_S e n) in
+  log_wf (log (nd sb)) /\
+  ((pid (sr (nd sb)) = 1 -> cur_id (sr (nd sb)) <= last_idx (log (nd sb))) ->
+   log_wf (log (nd (on_tick e n)))).
+Proof.
+  intros e n W SW. cbn zeta.
+  assert (WB : log_wf (log (nd (tick_body e (start_S e n))))).
+  { unfold tick_body, tick_pre.
+    assert (PRE : log_wf (log (nd ((tick_load e;; tick_timer e;; tick_election e;; tick_leader e) (start_S e n))))).
+    { unfold andthen at 1.
+      assert (WL : log_wf (log (nd (tick_load e (start_S e n))))).
+      { unfold tick_load. destruct (need_load (nd (start_S e n)) && file_dump (cf e)); [|exact W].
+        change (log_wf (log (nd (load_dump e false (start_S e n))))). now apply log_wf_load_dump. }
+      destruct (ok (tick_load e (start_S e n))); auto.
+      apply (wfk_andthen (tick_timer e) (tick_election e ;; tick_leader e)); auto.
+      - apply wfk_view. intros s. apply view_tick_timer.
+      - apply wfk_andthen. + apply wfk_tick_election. + apply wfk_view. intros s. apply view_tick_leader. }
+    unfold andthen at 1.
+    destruct (ok ((tick_load e;; tick_timer e;; tick_election e;; tick_leader e) (start_S e n))); auto.
+    set (s0 := (tick_load e;; tick_timer e;; tick_election e;; tick_leader e) (start_S e n)) in *.
+    assert (WA : log_wf (log (nd (fst (apply_entries e s0))))).
+    { rewrite apply_entries_unfold. destruct (applied (nd s0) <? commit (nd s0)); auto.
+      pose proof (lc_apply_list (get_entries (log (nd s0)) (Some (applied (nd s0) + 1)) (Some (commit (nd s0) - applied (nd s0))) None) s0) as LC.
+      unfold lc in LC. apply (f_equal fst) in LC. cbn [fst] in LC. rewrite LC. exact PRE. }
+    destruct (apply_entries e s0) as [s1 need]. cbn [fst] in WA.
+    destruct (ok s1); auto.
+    unfold tick_mid. apply wfk_andthen; auto.
+    - apply wfk_view. intros s. apply view_tick_send.
+    - apply wfk_andthen. + apply wfk_view. intros s. apply view_tick_ready.
+      + intros s. unfold check_commands. apply wfk_check_loop. }
+  split; auto. intros SC. rewrite on_tick_body. unfold andthen.
+  destruct (ok (tick_body e (start_S e n))); auto. now apply log_wf_try_compact.
+Qed.
+
+(* API calls and connection events do not touch the log *)
+Theorem log_other_events : forall (api : env -> cmd -> cbref -> node -> S) e c cbk n x,
+  (api = api_submit \/ api = api_admin \/ api = api_setver) ->
+  log (nd (api e c cbk n)) = log n /\ log (on_connected x n) = log n /\ log (on_disconnected x n) = log n /\
+  log (api_compact n) = log n.
+Proof.
+  intros api e c cbk n x H. split; [|split; [|split]].
+  - assert (SB : log (nd (submit e c cbk (start_S e n))) = log n).
+    { unfold submit. destruct (qsize (cf e) <? N.of_nat (length (queue (nd (start_S e n))))); auto.
+      now rewrite nd_call_err. }
+    destruct H as [->|[->| ->]]; auto.
+    + unfold api_admin. destruct (dyn (cf e)); auto.
+    + unfold api_setver. destruct ((self_ver n <? ca c) || (ca c <? enabled_ver n)); auto.
+  - unfold on_connected. destruct (RO_BASE <=? x); reflexivity.
+  - unfold on_disconnected. destruct (RO_BASE <=? x); reflexivity.
+  - reflexivity.
+Qed.
+
+(* the initial log and a log read back from disk *)
+Lemma log_wf_init : forall e me oth sv, log_wf (log (init_node e me oth sv)).
+Proof. intros. split; [discriminate|]. cbn. auto. Qed.
+
+Lemma log_wf_init_from_disk : forall e me oth sv d,
+  (d_log d = [] \/ log_wf (d_log d)) -> log_wf (log (init_from_disk e me oth sv d)).
+Proof.
+  intros e me oth sv d H. unfold init_from_disk. destruct (d_log d) as [|x l] eqn:D.
+  - apply log_wf_init.
+  - destruct H as [H|H]; [discriminate|]. exact H.
 Qed.
